@@ -114,6 +114,7 @@ def run(chk, facts):
     # 2. the triples
     n_tr = 0
     bad_by_hole = {}
+    chain_bad = {}
     for v, toks, holes, needs in arm_rows:
         for i, (h, need) in enumerate(zip(holes, needs)):
             kind, info = h[1], h[2]
@@ -139,6 +140,10 @@ def run(chk, facts):
                     req = pm.required.get((v, info["side"]))
                     ok = req is not None and pm.precedence.get(c, 99) < req
                     how = f"operand(.., Side::{info['side']}) with required={req}, precedence[{c}]={pm.precedence.get(c)}"
+                    if pm.operand_rule == "chain" and info["side"] == "Right" and pm.chain_level.get(v) is not None and pm.chain_level.get(v) == pm.chain_level.get(c):
+                        # same grammar level, right operand: printed bare by design
+                        chain_bad.setdefault(pm.chain_level[v], set()).add((v, c))
+                        continue
                 elif kind == "protect":
                     req = info.get("level")
                     ok = req is not None and pm.precedence.get(c, 99) < req
@@ -168,6 +173,12 @@ def run(chk, facts):
                        detail={"children": [b[0] for b in bad]})
             else:
                 chk.ob("R-C10-1", f"hole:{holekey}:{' '.join(toks)}", True, f"`{' '.join(toks)}` hole `{info.get('field')}` (need {need}): every looser child form is parenthesised", loc)
+    # right operands of the same grammar level: one obligation per level, keyed by the exact set of (parent, child) pairs
+    for lvl, pairs in sorted(chain_bad.items()):
+        members = sorted({p for p, _ in pairs} | {c for _, c in pairs})
+        chk.ob("R-C10-1", f"chain-level:{lvl}|{','.join(members)}|{len(pairs)}", False,
+               f"grammar level {lvl} ({', '.join(members)}): a right operand of the same level is printed without parentheses, so the grouping `x op (y op z)` "
+               f"is lost for {len(pairs)} (parent, child) pairs, e.g. {sorted(pairs)[0][0]}(x, {sorted(pairs)[0][1]}(y, z))", loc, detail={"pairs": sorted(pairs)})
     chk.counts["R-C10-1:triples"] = n_tr
     chk.floor("R-C10-1", n_tr, 2000, "(template, hole, child) triples")
 
